@@ -22,8 +22,8 @@ CfgQuick ==
 \* thorough: all outcome classes, non-monotone budgets, 4 hosts, cancellation everywhere
 CfgThA == Cfgs(HostSeqs(3, {"ok", "noconn"}), {PolNone} \cup {PolBudget(n) : n \in 0 .. 2} \cup {PolScript({2})},
                ScriptOuts, 0 .. 2, BOOLEAN, {FALSE})
-CfgThB == Cfgs({<<"ok", "ok", "ok", "ok">>, <<"ok", "noconn", "ok", "ok">>}, {PolBudget(2), PolScript({1, 3})},
-               CoreOuts, {2}, {TRUE}, {FALSE})
+CfgThB == Cfgs({<<"ok", "ok", "ok", "ok">>}, {PolBudget(2), PolScript({1, 3})}, CoreOuts, {2}, {TRUE}, {FALSE})
+          \cup Cfgs({<<"ok", "noconn", "ok", "ok">>}, {PolBudget(2)}, CoreOuts, {2}, {TRUE}, {FALSE})
 CfgThC == Cfgs(HostSeqs(2, {"ok", "noconn"}) \cup {<<"ok", "ok", "ok">>}, {PolNone, PolBudget(1), PolBudget(2)},
                CoreOuts, 0 .. 2, BOOLEAN, {TRUE})
 CfgThorough == CfgThA \cup CfgThB \cup CfgThC
@@ -45,6 +45,12 @@ CfgSeqThorough ==
 CfgConc ==
   Cfgs({<<"ok", "ok">>, <<"ok", "ok", "ok">>, <<"ok", "noconn", "ok", "ok">>, <<"ok", "ok", "ok", "ok">>},
        {PolNone, PolBudget(0), PolBudget(1), PolBudget(2), PolScript({2})}, ScriptOuts, {1, 2}, {TRUE}, BOOLEAN)
+
+\* concurrent, exhaustive (every GateAtomic behaviour of small instances)
+CfgConcEx ==
+  Cfgs({<<"ok", "ok">>, <<"ok", "noconn", "ok">>}, {PolNone, PolBudget(1)}, {"ok", "e_retry", "e_next"}, {1}, {TRUE}, {FALSE})
+  \cup Cfgs({<<"ok", "ok", "ok">>}, {PolBudget(0)}, {"ok", "e_next"}, {2}, {TRUE}, {FALSE})
+  \cup Cfgs({<<"ok", "ok">>}, {PolBudget(1)}, {"ok", "e_next"}, {1}, {TRUE}, {TRUE})
 
 SeqOf(S) == LET RECURSIVE F(_) F(X) == IF X = {} THEN <<>> ELSE
               LET m == CHOOSE x \in X : \A y \in X : x <= y IN <<m>> \o F(X \ {m}) IN F(S)
